@@ -126,7 +126,7 @@ func (e engine) Exec(rc *harness.RunCtx, p *harness.Plan) (out *harness.Outcome)
 		return &harness.Outcome{Inconclusive: "world: " + err.Error()}
 	}
 	for _, op := range ops {
-		if (op.K == "deliver" || op.K == "faildeliver") && !w.valid(op.I) {
+		if (op.K == "deliver" || op.K == "faildeliver" || op.K == "fetchfaultdeliver") && !w.valid(op.I) {
 			return &harness.Outcome{Inconclusive: "op refers to an item outside the world"}
 		}
 	}
@@ -194,9 +194,13 @@ type session struct {
 	faultKV  bool
 	failHave map[string]bool
 	// failFind > 0: see Op.IterFault (armed for one Find)
-	failFind  int
-	stallMiss time.Duration
-	nstall    int
+	failFind int
+	// failFetch > 0: the failFetch-th fetch from the source fails (fetchfaultdeliver)
+	failFetch  int
+	fetchFired bool
+	srcFaults  bool
+	stallMiss  time.Duration
+	nstall     int
 }
 
 // errCommit is the injected failure of a CommitBatch.
@@ -359,6 +363,56 @@ func (s *session) failDeliver(op Op, n int) (failed bool, err error) {
 	return failed, s.await()
 }
 
+// errFetch is the injected read error of the blob source (not a not-exist).
+var errFetch = fmt.Errorf("%w: blob source: read error", sim.ErrInjected)
+
+// fetchFaultDeliver executes a "fetchfaultdeliver" op (a barrier op): item I
+// is delivered while the N-th fetch the index makes from the blob source
+// during that delivery fails with a read error. A delivery that fails counts
+// as not delivered (and may be repeated by a later op); one that succeeds is
+// an ordinary delivery and must have produced the ordinary rows.
+func (s *session) fetchFaultDeliver(op Op, n int) (failed bool, err error) {
+	b := s.w.b[op.I]
+	herr := s.task(fmt.Sprintf("c%d", op.C), func() {
+		ctx := context.Background()
+		had := s.srcSt.Has(b.RefS)
+		if _, err := s.srcW.ReceiveBlob(ctx, b.Ref, bytes.NewReader(b.Data)); err != nil {
+			s.mu.Lock()
+			s.recvErrs = append(s.recvErrs, fmt.Sprintf("source put %s: %v", b.RefS, err))
+			s.mu.Unlock()
+		}
+		s.mu.Lock()
+		s.failFetch, s.fetchFired = op.N, false
+		if s.failFetch <= 0 {
+			s.failFetch = 1
+		}
+		s.mu.Unlock()
+		_, rerr := s.idx.ReceiveBlob(ctx, b.Ref, bytes.NewReader(b.Data))
+		s.mu.Lock()
+		s.failFetch = 0
+		switch {
+		case rerr != nil && (errors.Is(rerr, sim.ErrInjected) || s.fetchFired):
+			// (readers between the source and the index may turn the read
+			// error into their own, e.g. io.ErrUnexpectedEOF)
+			failed = true
+			s.reach["delivery-failed-on-source-read-error"]++
+			if !had {
+				s.srcSt.Del(b.RefS)
+			}
+		case rerr != nil:
+			s.delivered[b.RefS] = true
+			s.recvErrs = append(s.recvErrs, fmt.Sprintf("index receive of item %d (%s): %v", op.I, s.w.item(op.I).K, rerr))
+		default:
+			s.delivered[b.RefS] = true
+		}
+		s.mu.Unlock()
+	})
+	if herr != nil {
+		return false, herr
+	}
+	return failed, s.await()
+}
+
 // stallSrc is the blob source as the index sees it when misses are slow.
 type stallSrc struct {
 	*sim.SimStore
@@ -366,6 +420,21 @@ type stallSrc struct {
 }
 
 func (x stallSrc) Fetch(ctx context.Context, br blob.Ref) (io.ReadCloser, uint32, error) {
+	x.s.mu.Lock()
+	hit := false
+	if x.s.failFetch > 0 {
+		x.s.failFetch--
+		if x.s.failFetch == 0 {
+			hit = true
+			x.s.fetchFired = true
+			x.s.reach["source-read-error-injected"]++
+		}
+	}
+	x.s.mu.Unlock()
+	if hit {
+		simcore.Yield("indexsim.src.fetch.fail")
+		return nil, 0, errFetch
+	}
 	rc, size, err := x.SimStore.Fetch(ctx, br)
 	if err != nil && x.s.stallMiss > 0 {
 		x.s.mu.Lock()
@@ -453,7 +522,7 @@ func (s *session) open() error {
 			oerr = fmt.Errorf("index.New: %w", err)
 			return
 		}
-		if s.stallMiss > 0 {
+		if s.stallMiss > 0 || s.srcFaults {
 			idx.InitBlobSource(stallSrc{s.srcW, s})
 		} else {
 			idx.InitBlobSource(s.srcW)
@@ -678,6 +747,8 @@ func (w *world) describeOps(ops []Op) []string {
 			out = append(out, fmt.Sprintf("c%d: %d opaque filler blobs", op.C, op.N))
 		case "faildeliver":
 			out = append(out, fmt.Sprintf("c%d: %s [the index rows fail the commit of this blob once]", op.C, w.describe(op.I)))
+		case "fetchfaultdeliver":
+			out = append(out, fmt.Sprintf("c%d: %s [fetch #%d from the blob source during this delivery fails with a read error]", op.C, w.describe(op.I), op.N))
 		default:
 			out = append(out, op.K)
 		}
@@ -698,6 +769,8 @@ func opKinds(w *world, ops []Op) string {
 			sb.WriteString("B")
 		case "faildeliver":
 			sb.WriteString("!" + w.item(op.I).K[:1])
+		case "fetchfaultdeliver":
+			sb.WriteString("^" + w.item(op.I).K[:1])
 		case "restart":
 			sb.WriteString("R")
 		case "check":
